@@ -57,6 +57,7 @@ package index
 //@   modifies s.width, s.len
 //@   ensures bucket [C03,C09,C11]: err == nil ==> 8 <= s.width && s.width <= 33554432 && s.width == width && s.len * s.width <= dataLen + extra && dataLen + extra < 9223372036854775808
 //@   ensures reject_small [C09]: width < 8 ==> err != nil
+//@   ensures accepts_wellformed [C11]: 8 <= width && width <= 33554432 && dataLen + extra < 9223372036854775808 ==> err == nil
 //@   ensures unchanged_on_error [C09]: err != nil ==> s.width == old(s.width) && s.len == old(s.len)
 
 //@ func (recordSet).Less
@@ -75,6 +76,10 @@ package index
 
 //@ func (*singleWidthIndex).Unmarshal
 //@   modifies pos(r), s.width, s.len, s.index
+//@   call[binary.Read#0] assert width_field [C11]: binsize(arg2) == 4
+//@   call[binary.Read#1] assert length_field [C11]: binsize(arg2) == 8
+//@   call[singleWidthIndex.checkUnmarshalLengths#0] assert fields_in_order [C11]: arg1 == width && arg2 == dataLen && arg3 == 0
+//@   check length_field_is_bucket_length [C11]: err == nil ==> len(s.index) == dataLen
 //@   alloc[0] bounded_by srcend(r) - pos(r)
 //@   ensures bucket [C03,C09,C11]: err == nil ==> 8 <= s.width && s.width <= 33554432 && s.len * s.width <= len(s.index)
 //@   ensures eof_is_unexpected [C02,C09]: err != io.EOF || pos(r) > old(pos(r))
@@ -93,3 +98,68 @@ package index
 
 //@ func (*multiWidthIndex).Unmarshal
 //@   call[mapupdate#0] assert stores_wellformed_bucket [C03,C09,C11]: 8 <= value.width && value.width <= 33554432 && value.len * value.width <= len(value.index) && key == value.width
+
+// ---- serialization (C11): byte counts, field widths, error propagation
+
+//@ func WriteTo
+//@   modifies wn(w)
+//@   let ml, merr := call[Index.Marshal#0]
+//@   call[Writer.Write#0] assert codec_prefix [C11]: len(arg1) == vsize(codecof(idx))
+//@   ensures count [C11,C05,C16]: err == nil && wn(w) - old(wn(w)) < 4611686018427387904 ==> result0 == wn(w) - old(wn(w))
+//@   ensures error_propagates [C16]: merr != nil ==> err != nil
+
+//@ func (*singleWidthIndex).Marshal
+//@   implements (github.com/ipld/go-car/v2/index.Index).Marshal
+//@   modifies wn(w)
+//@   call[binary.Write#0] assert width_field [C11]: binsize(arg2) == 4
+//@   call[binary.Write#1] assert length_field [C11]: binsize(arg2) == 8
+//@   call[Writer.Write#0] assert bucket_bytes [C11]: ref(arg1) == ref(s.index)
+
+//@ func (*multiWidthIndex).Marshal
+//@   implements (github.com/ipld/go-car/v2/index.Index).Marshal
+//@   modifies wn(w)
+//@   let bn, berr := call[singleWidthIndex.Marshal#0]
+//@   call[binary.Write#0] assert count_field [C11]: binsize(arg2) == 4
+//@   loop[1] invariant count [C11]: wn(w) - old(wn(w)) < 4611686018427387904 ==> l == wn(w) - old(wn(w))
+//@   loop[1] invariant mono [C11]: wn(w) >= old(wn(w))
+//@   loop[1] step continues_only_after_success [C16]: berr == nil
+
+//@ func (*multiWidthCodedIndex).Marshal
+//@   modifies wn(w)
+//@   call[binary.Write#0] assert code_field [C11]: binsize(arg2) == 8
+//@   ensures count [C11]: err == nil && wn(w) - old(wn(w)) < 4611686018427387904 ==> result0 == wn(w) - old(wn(w))
+
+//@ func (*MultihashIndexSorted).Marshal
+//@   implements (github.com/ipld/go-car/v2/index.Index).Marshal
+//@   modifies wn(w)
+//@   let bn, berr := call[multiWidthCodedIndex.Marshal#0]
+//@   call[binary.Write#0] assert count_field [C11]: binsize(arg2) == 4
+//@   loop[0] invariant count [C11]: wn(w) - old(wn(w)) < 4611686018427387904 ==> l == wn(w) - old(wn(w))
+//@   loop[0] invariant mono [C11]: wn(w) >= old(wn(w))
+//@   loop[0] step continues_only_after_success [C16]: berr == nil
+
+//@ func (*InsertionIndex).Flatten
+//@   call[Index.Load#0] assert all_records_at_once [C05,C11]: ref(arg1) == ref(rcrds) && len(rcrds) == nrecords
+//@   let nrecords := call[LLRB.Len#0]
+//@   alloc[0] bounded_by 281474976710656
+//@   closure[0]
+//@     requires nonneg [C09]: 0 <= idx
+//@     assume tree_yields_at_most_len_items: idx < len(rcrds)
+//@     assume tree_holds_only_record_digests: typeis(i, "v2/index.recordDigest")
+//@     ensures every_record_copied [C05,C11]: result == true && idx == old(idx) + 1
+//@   end
+
+//@ func ReadFrom
+//@   modifies pos(r)
+//@   let codec, cerr := call[ReadCodec#0]
+//@   call[New#0] assert codec_from_prefix [C11]: arg0 == codec
+//@   call[Index.Unmarshal#0] assert same_reader [C11]: ref(arg1) == ref(r)
+
+//@ func ReadCodec
+//@   modifies pos(r)
+//@   ensures eof_clean [C02]: err == io.EOF ==> pos(r) == old(pos(r))
+//@   ensures consumed [C11]: err == nil ==> pos(r) == old(pos(r)) + vsize(result0)
+
+//@ func (*multiWidthCodedIndex).Unmarshal
+//@   call[binary.Read#0] assert code_field [C11]: binsize(arg2) == 8
+//@   call[multiWidthIndex.Unmarshal#0] assert same_reader [C11]: ref(arg1) == ref(r)
